@@ -1,5 +1,184 @@
-import StraxModel.Model.Basic
+import StraxModel.Lemmas.MultiRun
+/-
+  Property C15 — loading many runs in parallel equals loading them one by one.
+
+  Part 1 (`multi_run`): for every number of runs, every number of workers ≥ 1 and EVERY completion
+  order, the result is the per-run results in sorted run-id order, each carrying the id of the run
+  that produced it; a failing run raises its own error or, with `ignore_errors`, is left out
+  without disturbing the others.
+  Part 2 (plugin registry shared by the workers of one context): the code as it stands has
+  two-thread interleavings that crash (open defect D8, `registry_race_counterexample`); if the
+  register / resolve / cleanup block of every worker is made atomic (a lock), every interleaving
+  is safe (`registry_safe_serialized`).
+
+  Only property theorems and non-vacuity examples live here; the work is in Lemmas/MultiRun.lean.
+-/
 namespace Strax.C15
-open Strax
+open Strax Strax.MultiRun
+
+/-! ## 1. `multi_run` -/
+
+/-- hypothesis of the order-independence law: nothing can make `multi_run` raise -/
+def NoRaise (runs : List Nat) (results : Nat → Except Err Rows) (ignoreErrors : Bool) : Prop :=
+  ignoreErrors = true ∨ ∀ r ∈ runs, ∃ rows, results r = .ok rows
+
+/-- For all run lists, all worker counts ≥ 1 and ALL completion orders: the result is exactly what
+sequential single-run calls give — one entry per (successful) run, in sorted run-id order. -/
+theorem order_independent (runs order : List Nat) (results : Nat → Except Err Rows) (ig : Bool) (w : Nat)
+    (hw : 0 < w) (h : NoRaise runs results ig) :
+    multiRun runs order results ig w = .ok (sequential runs results) := by
+  rcases multiRun_spec runs order results ig w hw with ⟨hok, _⟩ | ⟨hig, e, _, r, hr, hre⟩
+  · exact hok
+  · rcases h with h | h
+    · rw [hig] at h; cases h
+    · obtain ⟨rows, hrows⟩ := h r hr
+      rw [hrows] at hre; cases hre
+
+/-- two executions that differ in completion order and in the number of workers agree -/
+theorem completion_order_irrelevant (runs o₁ o₂ : List Nat) (results : Nat → Except Err Rows) (ig : Bool)
+    (w₁ w₂ : Nat) (h₁ : 0 < w₁) (h₂ : 0 < w₂) (h : NoRaise runs results ig) :
+    multiRun runs o₁ results ig w₁ = multiRun runs o₂ results ig w₂ := by
+  rw [order_independent runs o₁ results ig w₁ h₁ h, order_independent runs o₂ results ig w₂ h₂ h]
+
+/-- what "the per-run results in run-id order" means: sorted by run id, and an entry `(r, rows)` is
+present iff `r` was asked for and loading `r` alone returns `rows` -/
+theorem sequential_characterisation (runs : List Nat) (results : Nat → Except Err Rows) :
+    (sequential runs results).Pairwise (fun a b => a.1 ≤ b.1) ∧
+    ∀ p : Nat × Rows, p ∈ sequential runs results ↔ (p.1 ∈ runs ∧ results p.1 = .ok p.2) := by
+  constructor
+  · rw [sequential_eq]
+    refine List.Pairwise.filterMap (R := fun x y : Nat => x ≤ y) _ ?_ (sortBy_pairwise id runs)
+    intro a a' haa' b hb b' hb'
+    unfold entryOf at hb hb'
+    split at hb <;> cases hb
+    split at hb' <;> cases hb'
+    exact haa'
+  · intro p
+    rw [sequential_eq]
+    constructor
+    · intro hp
+      have := mem_filterMap_entryOf hp
+      exact ⟨(sortBy_perm id runs).mem_iff.1 this.1, this.2⟩
+    · rintro ⟨hr, hres⟩
+      refine List.mem_filterMap.2 ⟨p.1, (sortBy_perm id runs).mem_iff.2 hr, ?_⟩
+      simp [entryOf, hres]
+
+-- non-vacuity: four runs given unsorted, two workers, the last-submitted run finishing first
+example : NoRaise [3, 1, 2, 0] (fun r => .ok [10 * r, 10 * r + 1]) false := Or.inr fun _ _ => ⟨_, rfl⟩
+example : multiRun [3, 1, 2, 0] [3, 2, 1, 0] (fun r => .ok [10 * r, 10 * r + 1]) false 2
+    = .ok [(0, [0, 1]), (1, [10, 11]), (2, [20, 21]), (3, [30, 31])] := by rfl
+
+/-- A failing run raises (its own error, not somebody else's) when errors are not ignored … -/
+theorem failing_run_raises (runs order : List Nat) (results : Nat → Except Err Rows) (w : Nat) (hw : 0 < w)
+    (hfail : ∃ r ∈ runs, ∃ e, results r = .error e) :
+    ∃ e, multiRun runs order results false w = .error e ∧ ∃ r ∈ runs, results r = .error e := by
+  rcases multiRun_spec runs order results false w hw with ⟨_, hall⟩ | ⟨_, e, he, r, hr, hre⟩
+  · exfalso
+    obtain ⟨r, hr, e, hre⟩ := hfail
+    obtain ⟨rows, hrows⟩ := hall rfl r hr
+    rw [hrows] at hre; cases hre
+  · exact ⟨e, he, r, hr, hre⟩
+
+/-- … and is left out, without disturbing any other run, when errors are ignored. -/
+theorem failing_run_is_omitted (runs order : List Nat) (results : Nat → Except Err Rows) (w : Nat) (hw : 0 < w) :
+    ∃ out, multiRun runs order results true w = .ok out ∧
+      (∀ r e, results r = .error e → ∀ p ∈ out, p.1 ≠ r) ∧
+      (∀ r ∈ runs, ∀ rows, results r = .ok rows → (r, rows) ∈ out) := by
+  refine ⟨sequential runs results, order_independent runs order results true w hw (Or.inl rfl), ?_, ?_⟩
+  · intro r e hre p hp hpr
+    have := ((sequential_characterisation runs results).2 p).1 hp
+    rw [hpr, hre] at this
+    cases this.2
+  · intro r hr rows hrows
+    exact ((sequential_characterisation runs results).2 (r, rows)).2 ⟨hr, hrows⟩
+
+/-- the two halves together -/
+theorem failing_run_raises_or_is_omitted (runs order : List Nat) (results : Nat → Except Err Rows) (ig : Bool)
+    (w : Nat) (hw : 0 < w) :
+    (ig = false → (∃ r ∈ runs, ∃ e, results r = .error e) →
+        ∃ e, multiRun runs order results ig w = .error e ∧ ∃ r ∈ runs, results r = .error e) ∧
+    (ig = true → multiRun runs order results ig w = .ok (sequential runs results)) := by
+  constructor
+  · intro hig hfail; subst hig; exact failing_run_raises runs order results w hw hfail
+  · intro hig; subst hig; exact order_independent runs order results true w hw (Or.inl rfl)
+
+example : multiRun [3, 1, 2] [2, 0, 1] (fun r => if r = 2 then .error .osError else .ok [r]) false 2
+    = .error .osError := by rfl
+example : multiRun [3, 1, 2] [2, 0, 1] (fun r => if r = 2 then .error .osError else .ok [r]) true 2
+    = .ok [(1, [1]), (3, [3])] := by rfl
+
+/-- The run id attached to a result is the id of the run that produced it (whatever the order in
+which futures complete), and only runs that were asked for appear. -/
+theorem run_id_column_correct (runs order : List Nat) (results : Nat → Except Err Rows) (ig : Bool) (w : Nat)
+    (hw : 0 < w) (out : List (Nat × Rows)) (h : multiRun runs order results ig w = .ok out) :
+    ∀ p ∈ out, p.1 ∈ runs ∧ results p.1 = .ok p.2 := by
+  rcases multiRun_spec runs order results ig w hw with ⟨hok, _⟩ | ⟨_, e, he, _⟩
+  · rw [hok] at h; cases h
+    intro p hp
+    exact ((sequential_characterisation runs results).2 p).1 hp
+  · rw [he] at h; cases h
+
+/-- `max_workers = 0` is rejected before anything runs (ThreadPoolExecutor raises ValueError) -/
+theorem zero_workers_rejected (runs order : List Nat) (results : Nat → Except Err Rows) (ig : Bool) :
+    multiRun runs order results ig 0 = .error .valueError := by
+  simp [multiRun, multiRunFull]
+
+/-! ## 2. the plugin registry shared by the workers -/
+
+/-- Open defect D8.  Two workers of one context, both asking for the same two same-kind targets
+(hence the same `_temp_0` name), on a context with three registered plugins and a warm plugin
+cache.  One preemption suffices for two of the failure kinds seen on the real code, two for the
+third:
+* worker 0 registers its temp plugin, worker 1 runs its whole `get_iter` (re-registers the name,
+  resolves, deletes every `_temp*` key), worker 0 resumes: `KeyError` when it resolves the name;
+* worker 0 is inside `_context_hash` (iterator over 4 keys) while worker 1 does the same and
+  removes the temp key: `RuntimeError: dictionary changed size during iteration`;
+* worker 0 has tested `_fixed_plugin_cache is None` (it was not), worker 1 registers its own class
+  under the name (a different class ⇒ the cache is invalidated), worker 0 subscripts `None`:
+  `TypeError`. -/
+theorem registry_race_counterexample :
+    ((Sys.init 3 true [workerProg 0, workerProg 0]).run
+        (List.replicate 6 0 ++ List.replicate 24 1 ++ List.replicate 8 0)).failures = [(0, .keyError)] ∧
+    ((Sys.init 3 true [workerProg 0, workerProg 0]).run
+        (List.replicate 7 0 ++ List.replicate 24 1 ++ [0])).failures = [(0, .runtimeError)] ∧
+    ((Sys.init 3 true [workerProg 0, workerProg 0]).run
+        (List.replicate 13 0 ++ List.replicate 7 1 ++ [0])).failures = [(0, .typeError)] := by
+  decide +kernel
+
+/-- … while the same two workers run one after the other are fine and leave the registry as it was -/
+example : ((Sys.init 3 true [workerProg 0, workerProg 0]).run
+      (List.replicate 24 0 ++ List.replicate 24 1)).allDone = true ∧
+    ((Sys.init 3 true [workerProg 0, workerProg 0]).run
+      (List.replicate 24 0 ++ List.replicate 24 1)).shared.reg = baseRegistry 3 := by decide +kernel
+
+/-- the same race on the inner plugin-cache dict (open defect D8b): one worker iterates the dict
+(`__get_requested_plugins_from_cache`), another inserts a plugin (`_plugins_to_cache`) -/
+theorem cache_race_counterexample :
+    ((Sys.init 1 true [[.contextHash], [.registerTemp 0]]).run [0, 0, 1, 0]).failures
+      = [(0, .runtimeError)] := by
+  decide +kernel
+
+/-- The lock-style fix.  If every worker's block `[registerTemp; resolve; deleteAllTemp; contextHash]`
+runs atomically, then for ALL numbers of registered plugins, ALL numbers of workers, ALL temp
+names and ALL schedules of the blocks: no worker fails (in particular every resolve succeeds),
+every worker that was scheduled has finished, and the registry and the cache flag are what they
+were initially. -/
+theorem registry_safe_serialized (nPlugins : Nat) (cacheSet : Bool) (temps : List Nat) (schedule : List Nat) :
+    let sys := (Sys.init nPlugins cacheSet (temps.map lockedProg)).runBlocks schedule
+    sys.failures = [] ∧
+    sys.shared.reg = baseRegistry nPlugins ∧
+    sys.shared.cacheSet = cacheSet ∧
+    (∀ i ∈ schedule, ∀ t : Thread, sys.threads[i]? = some t → t.done = true) :=
+  runBlocks_safe nPlugins cacheSet temps schedule
+
+/-- every worker scheduled at least once ⇒ all of them are done -/
+theorem registry_safe_serialized_all_done (nPlugins : Nat) (cacheSet : Bool) (temps : List Nat)
+    (schedule : List Nat) (hall : ∀ i, i < temps.length → i ∈ schedule) :
+    ((Sys.init nPlugins cacheSet (temps.map lockedProg)).runBlocks schedule).allDone = true :=
+  runBlocks_allDone nPlugins cacheSet temps schedule hall
+
+example : ((Sys.init 3 true ([0, 0, 1].map lockedProg)).runBlocks [2, 0, 0, 1]).allDone = true ∧
+    ((Sys.init 3 true ([0, 0, 1].map lockedProg)).runBlocks [2, 0, 0, 1]).shared.reg = baseRegistry 3 := by
+  decide +kernel
 
 end Strax.C15
